@@ -4,6 +4,7 @@
 -/
 import Driver.Codec
 import NarseseModel.PegSem
+import NarseseModel.PegWF
 import Proofs.RT.Top
 import Proofs.LRT.Bool
 import Proofs.C03.FoldValue
@@ -288,6 +289,18 @@ def exec (op fmt payload : String) : Except String String := do
     let L ← lfmtOf fmt
     let v ← runRd rdLNarsese payload
     pure s!"h {bit (wfLNB L v)} {bit (wsFreeN L v)} ok {showLNarsese v}"
+  | "c11hyp" =>
+    -- model-only: the hypotheses of `ascii_conforms_wf` (`Props/C11c.lean`) for a lexical value
+    let L ← lfmtOf fmt
+    let v ← runRd rdLNarsese payload
+    pure s!"h {bit (wfLNB L v && wsFreeN L v)} {bit (Peg.gExtraB L v)} ok {showLNarsese v}"
+  | "c11hypE" =>
+    -- model-only: the hypothesis of `ascii_conforms_enum` for an enum value; the value the theorem predicts
+    let F ← efmtOf fmt
+    let L ← lfmtOf fmt
+    let v ← runRd rdNarsese payload
+    let x := toLexN F v
+    pure s!"h {bit (Peg.gValOKB L x)} 1 ok {showLNarsese x}"
   | "c03hyp" =>
     -- model-only: do the hypotheses of `pipelines_agree_on_formatted` (`Props/C03b.lean`) hold for this value?
     let F ← efmtOf fmt
